@@ -216,3 +216,85 @@ def gen_history(st: Stream, profile: str, target: int, budget: str = "small",
             w(CS_NONE, st.below(2), st.byte())
             r(st.choice((CS_NONE, CS_BOTH)), st.below(2))
     return ops
+
+
+# ---------------------------------------------------------------------------------------------------------
+# Round 5: bystander operations -- things a program / host does to the live LCD that are NOT accesses to the LCD
+# windows: observations through the public surface ("S") and snapshot restores the implementation refuses ("L").
+# Whatever they are, the chips' state and every later read value must remain a function of the window accesses.
+# ---------------------------------------------------------------------------------------------------------
+
+OBSERVERS = ("snapshot", "display", "stats", "save", "save")
+RESTORE_DEFECTS = ("payload-size", "payload-size", "payload-size", "geometry", "chip-count", "missing-field")
+_SIZES = (0, 1, 63, 511, 512, 513, 700, 1023, 1025, 1087, 1536, 2047, 2048)
+
+
+def _payload_hex(seed: int, n: int) -> str:
+    from .core import mix32
+
+    block = bytes(mix32(seed, 0x10AD, i) & 0xFF for i in range(64))
+    return (block * (n // 64 + 1))[:n].hex()
+
+
+def gen_observer(st: Stream) -> List[Any]:
+    return ["S", st.choice(OBSERVERS)]
+
+
+def gen_refused_restore(st: Stream) -> List[Any]:
+    """A foreign snapshot (generated registers / VRAM) with ONE generated defect that makes both implementations
+    refuse it: wrong payload size for a well-formed geometry, wrong geometry, wrong chip count, missing field.
+    Lengths are chosen so that the payload never matches len(chips) * pages * width (the Python acceptance rule)
+    nor 2 * 8 * 64 with a well-formed header (the Rust one); whether it WAS refused is decided by the
+    implementation's own answer, never assumed."""
+    defect = st.choice(RESTORE_DEFECTS)
+    chips = []
+    for _ in range(2):
+        chips.append({"on": st.chance(1, 2), "start_line": st.below(64), "page": st.below(8),
+                      "y_address": st.below(64), "busy": st.chance(1, 2),
+                      "instruction_count": st.below(1000), "data_write_count": st.below(1000),
+                      "data_read_count": st.below(1000)})
+    meta = {"kind": "hd61202", "chip_count": 2, "pages": 8, "width": 64, "chips": chips,
+            "cs_both_count": st.below(100), "cs_left_count": st.below(100), "cs_right_count": st.below(100)}
+    n = 1024
+    if defect == "payload-size":
+        n = st.choice(_SIZES + (st.below(2100),))
+    elif defect == "geometry":
+        if st.chance(1, 2):
+            meta["pages"] = st.choice((1, 4, 7, 9, 16))
+        else:
+            meta["width"] = st.choice((32, 63, 65, 128))
+    elif defect == "chip-count":
+        meta["chip_count"] = st.choice((0, 1, 3, 4))
+        n = meta["chip_count"] * 512
+    else:
+        del meta[st.choice(("chip_count", "pages", "width"))]
+        n = st.choice((512, 1023, 1025, 1536))
+    if n == len(chips) * int(meta.get("pages", 8)) * int(meta.get("width", 64)):
+        n += 1 + st.below(64)
+    return ["L", meta, _payload_hex(st.below(1 << 30), n), defect]
+
+
+def add_bystanders(st: Stream, ops: List[List[Any]]) -> List[List[Any]]:
+    """Insert 1-4 bystander operations at generated positions (half of them directly behind a write op, i.e. inside
+    the BUSY window of the written chip / over non-power-on state) and, in half of the histories, append per chip a
+    `write ; bystander ; status poll ; status poll` sandwich."""
+    out = [list(o) for o in ops]
+
+    def one() -> List[Any]:
+        return gen_refused_restore(st) if st.chance(2, 5) else gen_observer(st)
+
+    for _ in range(1 + st.below(4)):
+        after_write = [i + 1 for i, o in enumerate(out) if o[0] in ("w", "W") and not (o[1] & 1)]
+        if after_write and st.chance(1, 2):
+            pos = st.choice(after_write)
+        else:
+            pos = st.below(len(out) + 1)
+        out.insert(pos, one())
+    if st.chance(1, 2):
+        for cs in (_CS_CHIP if st.chance(1, 2) else (st.choice(_CS_CHIP),)):
+            di = st.below(2)
+            out.append(["w", addr(st, st.choice((cs, cs, CS_BOTH)), di, 0), st.byte() if di else instr_value(st, st.below(4))])
+            out.append(one())
+            out.append(["r", addr(st, cs, 0, 1)])
+            out.append(["r", addr(st, cs, 0, 1)])
+    return out
